@@ -3,8 +3,11 @@
 NAME=$1; TIER=$2; shift; shift
 cd /repo && git apply /verif/seeded/$NAME/patch.diff || { echo "patch does not apply"; exit 2; }
 cd /verif
+# evidence and replays of a run against a seeded tree must not land in /verif
+export VERIF_OUT=$(mktemp -d /dev/shm/tryout.XXXXXX)
 for p in "$@"; do
   out=$(./check $p --tier $TIER 2>&1); rc=$?
   echo "[$NAME] $p rc=$rc :: $(echo "$out" | grep -E 'VIOLATION|HARNESS' | head -2 | tr '\n' ' ') $(echo "$out" | grep -A1 VIOLATION | grep -v VIOLATION | head -1 | cut -c1-250)"
 done
 cd /repo && git checkout -- . 
+rm -rf "$VERIF_OUT"
